@@ -34,8 +34,8 @@ claim("C20", "abstract interpretation of each setter's store into a clamp domain
 claim("C16", "exact rational polynomial normal forms (log-linear slope vs ln10/20, inverse getter) + field-sensitive forward taint with closure bodies from every read of the vocoder's volume + exhaustive output-store rule, over rustc MIR",
       "Sound static decision that set/get volume are an inverse dB pair with slope ln10/20, that every store into the output buffer (both filter families) is (volume-independent value) x volume, and that volume reaches no other store, call or branch in the vocoder; hence every sample scales by 10^(v/20) and nothing else changes.")
 
-claim("C19", "construct-set analysis + CFG dominance of Ok-returns and stores by normalised success edges of the validating calls (check-before-assign), over rustc MIR",
-      "Sound static decision that VoiceSet/Weights can only be built by their validating constructors, that VoiceSet::new rejects empty lists and any metadata mismatch (global, stream count, per-stream; derived PartialEq), that Weights::new accepts only sums within 1e-6 of 1, and that each weight setter's single store is dominated by the success edges of both the sum and the length check - so a rejected update executes no store, for every history of updates.")
+claim("C19", "construct-set analysis + CFG dominance of Ok-returns and stores by normalised success edges of the validating calls (check-before-assign, looking through a local validating helper) + must-reach / unskippable path rules on the metadata comparisons, over rustc MIR",
+      "Sound static decision that VoiceSet/Weights can only be built by their validating constructors, that VoiceSet::new rejects empty lists and any metadata mismatch (global, stream count, per-stream; derived PartialEq): the failing outcome of each comparison alone ends in MetadataError and no iteration can get around a comparison, that Weights::new accepts only sums within 1e-6 of 1, and that each weight setter's single store is dominated by the success edges of both the sum and the length check - so a rejected update executes no store, for every history of updates.")
 
 claim("C02", "write-set, dominance/post-dominance and effect-freedom rules on the step function's CFG + exact polynomial identities on the batch loop's buffer size and slice offset + parameter-role inference, over rustc MIR",
       "Sound static decision that the frame cursor advances exactly once per synthesized frame, that the exhausted path returns 0 and has no effect, that the three stream arguments use the one cursor value in the right roles, that the batch is a loop of steps whose chunks tile the buffer exactly (o(s)=0, o(k+1)-o(k)=f, B=o(L)), and that all cross-frame state is owned by the generator. These imply chunk concatenation = one-shot output and finish = remaining suffix for every call history and buffer size.")
@@ -46,8 +46,8 @@ claim("C08", "def-use normal forms (clamp domain over the rounded model value, e
 claim("C09", "exact polynomial forms of the time scaling and group target + store/guard pairing of the inheritance rules + a crate-wide computed-value-is-used rule over the synthesis closure + dispatch guards, over rustc MIR",
       "Sound static decision of the structural clauses of C09: times are scaled by sampling_rate/(fperiod*1e7) with start/end from tokens 1/2 and the right argument roles; the two inheritance stores carry the stated sign guards; each known end fits parameters[next_state..state+nstate] to end - frames_so_far with the loop-carried updates on the right paths; no duration estimate in the synthesis closure is computed and dropped (the fallback for trailing untimed labels is appended); the alignment flag dispatches to the aligned path. Not decided: the full loop invariant and fractional-frame rounding.")
 
-claim("C01", "polynomial/structural def-use forms (buffer size, frame expansion), single-definition sharing of the duration vector, clamp-domain floor, control-dependence of stream-2 accesses, explicit-panic ledger over the synthesis call-graph closure with mechanical guards + audited table, over rustc MIR",
-      "Sound static decision of: samples = (frames - cursor) x fperiod with a fresh cursor of 0; one row per frame, frames = per-state flags expanded by the one shared duration vector; every value entering a duration vector >= 1; every label contributes states 2..2+nstate; every constant-stream-2 access is under num_streams > 2; no explicit panic construct (panic!/todo!/unwrap/expect/range slicing/integer division/precondition APIs) in the synthesis closure is unaudited. NOT decided: finiteness of samples, bounds/overflow checks inside the numeric kernels (counted, not judged).")
+claim("C01", "polynomial/structural def-use forms (buffer size, frame expansion), single-definition sharing of the duration vector, clamp-domain floor, control-dependence of stream-2 accesses, explicit-panic ledger over the synthesis call-graph closure with mechanical guards + audited table (shape AND required dominating guards re-checked), band-matrix shape agreement, float-division-by-count ledger with local / call-site guards, over rustc MIR",
+      "Sound static decision of: samples = (frames - cursor) x fperiod with a fresh cursor of 0; one row per frame, frames = per-state flags expanded by the one shared duration vector; every value entering a duration vector >= 1; every label contributes states 2..2+nstate; every constant-stream-2 access is under num_streams > 2; no explicit panic construct (panic!/todo!/unwrap/expect/range slicing/integer division/precondition APIs) in the synthesis closure is unaudited; the MLPG band matrix has `length` rows of `width` entries; no f64 division by an integer count (frame / voice / eligible-frame counts) lacks a proof that the count is non-zero (the 0/0 part of `NaN never out of nothing`). NOT decided: finiteness of samples in general, bounds/overflow checks inside the numeric kernels (counted, not judged).")
 
 claim("C17", "resolved delegation chain of the trait impls + read-set/control-dependence of the times field + taint from (sampling rate, frame period) + dominance/post-dominance pairing of pushes + panic ledger and `?`-propagation rules over the label reader, over rustc MIR",
       "Sound static decision that the four label input forms converge on one constructor with the same labels, that time stamps are read only under the alignment flag and cannot influence the parsed labels, that blank lines are the only silently skipped lines and every other line pushes exactly one label and one time pair or returns an error, and that no panic-capable construct in the reader is unaudited (fallible parses are propagated as LabelError -> EngineError). jlabel's own parser is a model entry in the quick tier and scanned in the thorough tier.")
@@ -69,11 +69,11 @@ claim("C14", "dominating-guard (no-effect) rule + exact polynomial forms of the 
 claim("C07", "closed-form constants + per-branch store signatures with normalised guards and dominance order + SIBLINGS comparison of the two cloned branches + polynomial forms of the tap updates + event-sequence comparison of the two filter families, over rustc MIR",
       "Sound static decision of the structural clauses of C07: F0 limits ln20/ln20000 and period = rate/exp(clamp(lf0)); the pitch accumulator (counter += 1; on counter >= T0: counter -= T0, pulse sqrt(T0); linear glide per sample; start/end semantics) in BOTH the ring-buffer and the never-tested no-LPF branch, which are compared with each other on every run; the mixed-excitation taps noise*(delta-h) + pulse*h; identical excitation event sequences for the MLSA and LSP families. NOT decided: noise statistics.")
 
-claim("C05", "truth table of the masking decision read off the switchInt chain (all assignments of its comparison atoms) + structural identity of the expansion/filter pipelines + const-item fill + recurrence recognition: the band LDL^T factorisation and both substitutions as index polynomials over symbolised loop variables (bounds, nesting, order), over rustc MIR",
-      "Sound static decision of the second sentence of C05 and of the algorithmic shape behind the first: a dynamic-window observation's precision is zeroed exactly when its window span touches an unvoiced frame or the utterance edge ((left < left_width or right < right_width) and window != static), frames outside the voicing mask carry the no-data constant, and the mask and every per-window parameter sequence are expanded by the same durations and filtered by the same mask (frame -> state assignment shared); solve() is exactly the band LDL^T algorithm (A[t][i] -= A[t-k][k] A[t-k][i+k] A[t-k][0] over k in 1..min(width-i, t+1), normalisation after both sums, forward g[t] = b[t] - sum A[t-k][k] g[t-k], backward c[t] = g[t]/A[t][0] - sum A[t][k] c[t+k], factorise before substituting) - wrong operands here only show for windows wider than the bundled ones. NOT decided: the assembly of W'U^-1W through the window iterators and the rounding accuracy of the result.")
+claim("C05", "truth table of the masking decision read off the switchInt chain (all assignments of its comparison atoms) + structural identity of the expansion/filter pipelines + const-item fill + recurrence recognition: the band LDL^T factorisation, both substitutions and the assembly of the normal equations as index polynomials over symbolised loop variables / iterator items (bounds, nesting, order), over rustc MIR",
+      "Sound static decision of the second sentence of C05 and of the algorithmic shape behind the first: a dynamic-window observation's precision is zeroed exactly when its window span touches an unvoiced frame or the utterance edge ((left < left_width or right < right_width) and window != static), frames outside the voicing mask carry the no-data constant, and the mask and every per-window parameter sequence are expanded by the same durations and filtered by the same mask (frame -> state assignment shared); solve() is exactly the band LDL^T algorithm (A[t][i] -= A[t-k][k] A[t-k][i+k] A[t-k][0] over k in 1..min(width-i, t+1), normalisation after both sums, forward g[t] = b[t] - sum A[t-k][k] g[t-k], backward c[t] = g[t]/A[t][0] - sum A[t][k] c[t+k], factorise before substituting) - wrong operands here only show for windows wider than the bundled ones; the assembly is wum[t] += w_i(o) ivar_i[t-pos(o)] mean_i[t-pos(o)] and wuw[t][idx(o')-idx(o)] += w_i(o) ivar_i[t-pos(o)] w_i(o') over every frame, window and tap under 0 <= t-pos(o) < length and t+j < length, with the tap iterator / WindowIndex semantics it relies on; create() cannot return before the column loop (no unfilled rows). NOT decided: the rounding accuracy of the result.")
 
 claim("C12", "polynomial form of the GV target + taint from the weight inside the solver entry (GV-less path independent) + read-set of the weight + no-effect rule for the zero-eligible-frames return + structural identity of the switch pipeline, over rustc MIR",
-      "Sound static decision of the structural clauses of C12: the GV target is gv_mean[vector_index] x gv_weight; a stream without GV returns the plain ML solution independently of the weight, and the weight is read nowhere else; with no eligible frame the trajectory is returned unmodified; the per-state switch is !gv_off_context.test(label), expanded by the same durations and filtered by the same mask as the parameters, and both the variance rescaling and the GV gradient term touch switched-on frames only. NOT decided: the 20 % variance law and monotonicity (numerical).")
+      "Sound static decision of the structural clauses of C12: the GV target is gv_mean[vector_index] x gv_weight; a stream without GV returns the plain ML solution independently of the weight, and the weight is read nowhere else; with no eligible frame the trajectory is returned unmodified; the statistics compared with the target (calc_gv) are sums over exactly the switched-on frames divided by their count; the per-state switch is !gv_off_context.test(label), expanded by the same durations and filtered by the same mask as the parameters, and both the variance rescaling and the GV gradient term touch switched-on frames only. NOT decided: the 20 % variance law and monotonicity (numerical).")
 
 
 def main():
